@@ -8,7 +8,7 @@ From AgileV Require Import Base.Prelude C12.Model C12.Proofs C12.ProofsShm C12.P
 Section Generic.
 Context {env state : Type}.
 Variable e_step : env -> state -> list Z -> state * trans.
-Variable e_reset : env -> state -> option Z -> state * (dict obs_t * dict info_t).
+Variable e_reset : env -> state -> rarg -> state * (dict obs_t * dict info_t).
 Variable e_kind : env -> okind.
 Variable e_live : state -> list nat.
 Variable s_init : state.
@@ -34,8 +34,8 @@ Proof.
   unfold g_single_step. pose proof (C_step_obs E s acts a ob) as Hr.
   destruct (e_step E s acts) as [s1 tr]. cbn [snd] in Hr.
   destruct (g_no_agent_left e_live s1); auto.
-  pose proof (C_reset_obs E s1 None a ob) as Hq.
-  destruct (e_reset E s1 None) as [s2 [o i]]. cbn [fst snd tobs] in *. auto.
+  pose proof (C_reset_obs E s1 no_rarg a ob) as Hq.
+  destruct (e_reset E s1 no_rarg) as [s2 [o i]]. cbn [fst snd tobs] in *. auto.
 Qed.
 
 Lemma g_single_info_nodup E s acts a d :
@@ -44,8 +44,8 @@ Proof.
   unfold g_single_step. pose proof (C_step_info E s acts a d) as Hr.
   destruct (e_step E s acts) as [s1 tr]. cbn [snd] in Hr.
   destruct (g_no_agent_left e_live s1); auto.
-  pose proof (C_reset_info E s1 None a d) as Hq.
-  destruct (e_reset E s1 None) as [s2 [o i]]. cbn [fst snd tinfo] in *. auto.
+  pose proof (C_reset_info E s1 no_rarg a d) as Hq.
+  destruct (e_reset E s1 no_rarg) as [s2 [o i]]. cbn [fst snd tinfo] in *. auto.
 Qed.
 
 Lemma g_worker_obs_wf E agents s acts : wf_obs (e_kind E) agents (tobs (snd (wstep E agents s acts))).
@@ -104,12 +104,14 @@ Proof.
     rewrite <- Hk at 2. exact H2.
 Qed.
 
-(* vec_env.reset(seed): sub-environment i is reset alone with seed + i *)
-Theorem g_vec_reset_refines_env k agents Es (st : gvstate state) seed i E s :
+(* vec_env.reset(seed, options): sub-environment i is reset alone with its own seed (seed + i for an int,
+   the i-th entry for a list, None otherwise) and the caller's options *)
+Theorem g_vec_reset_refines_env k agents Es (st : gvstate state) sd opt i E s :
   NoDup agents -> Forall (fun E => e_kind E = k) Es -> wf_vstate (length Es) k agents st ->
+  seed_ok (length Es) sd ->
   nth_error Es i = Some E -> nth_error (vstates st) i = Some s ->
-  let r := g_vec_reset wreset e_kind k agents Es st seed in
-  let w := wreset E agents s (seed_of seed i) in
+  let r := g_vec_reset wreset e_kind k agents Es st sd opt in
+  let w := wreset E agents s (rarg_at (length Es) sd opt i) in
   wf_vstate (length Es) k agents (fst r) /\
   nth_error (vstates (fst r)) i = Some (fst w) /\
   forall a, In a agents ->
@@ -118,26 +120,27 @@ Theorem g_vec_reset_refines_env k agents Es (st : gvstate state) seed i E s :
     mask_at (snd (snd r)) a i = has_agent (snd (snd w)) a.
 Proof. apply (g_vec_reset_refines wreset e_kind g_worker_reset_obs_wf g_worker_reset_info_wf). Qed.
 
-(* a whole session: construct, reset(seed), then any sequence of action batches *)
-Theorem g_vec_session_refines k agents Es seed actss i E :
+(* a whole session: construct, reset(seed, options), then any sequence of action batches *)
+Theorem g_vec_session_refines k agents Es sd opt actss i E :
   NoDup agents -> Forall (fun E => e_kind E = k) Es -> Forall (actions_ok (length Es)) actss ->
-  nth_error Es i = Some E ->
-  let st0 := fst (g_vec_reset wreset e_kind k agents Es (g_vec_init s_init k agents Es) seed) in
-  let s0 := fst (e_reset E s_init (seed_of seed i)) in
+  seed_ok (length Es) sd -> nth_error Es i = Some E ->
+  let st0 := fst (g_vec_reset wreset e_kind k agents Es (g_vec_init s_init k agents Es) sd opt) in
+  let s0 := fst (e_reset E s_init (rarg_at (length Es) sd opt i)) in
   let acts_i := map (fun actions => nth i (transpose_actions agents actions 0%Z) []) actss in
   nth_error (vstates (fst (g_vec_run wstep e_kind k agents Es st0 actss))) i
     = Some (fst (g_run sstep E s0 acts_i)) /\
   Forall2 (fun out ref => agrees_at k agents i out (process_transition k agents ref))
           (snd (g_vec_run wstep e_kind k agents Es st0 actss)) (snd (g_run sstep E s0 acts_i)).
 Proof.
-  intros Hnd HK HF HE. cbn zeta.
+  intros Hnd HK HF Hsd HE. cbn zeta.
   assert (Hs : nth_error (vstates (g_vec_init s_init k agents Es)) i = Some s_init).
   { unfold g_vec_init. cbn [vstates]. rewrite nth_error_map, HE. reflexivity. }
-  destruct (g_vec_reset_refines_env k agents Es (g_vec_init s_init k agents Es) seed i E s_init Hnd HK
-              (g_vec_init_wf s_init k agents Es) HE Hs) as (Wf & H1 & _).
+  destruct (g_vec_reset_refines_env k agents Es (g_vec_init s_init k agents Es) sd opt i E s_init Hnd HK
+              (g_vec_init_wf s_init k agents Es) Hsd HE Hs) as (Wf & H1 & _).
   cbn zeta in H1.
-  assert (Hw : fst (wreset E agents s_init (seed_of seed i)) = fst (e_reset E s_init (seed_of seed i))).
-  { unfold g_worker_reset. destruct (e_reset E s_init (seed_of seed i)) as [s' [o inf]]. reflexivity. }
+  assert (Hw : fst (wreset E agents s_init (rarg_at (length Es) sd opt i))
+               = fst (e_reset E s_init (rarg_at (length Es) sd opt i))).
+  { unfold g_worker_reset. destruct (e_reset E s_init (rarg_at (length Es) sd opt i)) as [s' [o inf]]. reflexivity. }
   rewrite Hw in H1.
   apply (g_vec_refines_singles k agents Es actss _ i E _ Hnd HK Wf HF HE H1).
 Qed.
@@ -194,11 +197,17 @@ Proof.
   apply (infos_nodup (fun _ => (s1, false))).
 Qed.
 
-Lemma reset_info_nodup E s seed a d :
-  lookup a (snd (snd (env_reset E s seed))) = Some d -> NoDup (keys d).
+Lemma reset_info_keys s a opt : NoDup (keys (reset_info s a opt)).
+Proof. destruct opt; cbn; repeat constructor; cbn; intuition discriminate. Qed.
+
+Lemma reset_info_nodup E s ra a d :
+  lookup a (snd (snd (env_reset E s ra))) = Some d -> NoDup (keys d).
 Proof.
   unfold env_reset. cbn [fst snd live].
-  match goal with |- context[info_of ?st _ true] => apply (infos_nodup (fun _ => (st, true))) end.
+  match goal with |- context[map (fun b => (b, reset_info ?st b ?o)) ?L] =>
+    rewrite (lookup_map_key (fun b => reset_info st b o) L a) end.
+  match goal with |- context[existsb ?f ?L] => destruct (existsb f L) end; [|discriminate].
+  intros [= <-]. apply reset_info_keys.
 Qed.
 
 (* ------------------------------------------------------------------ the instance theorems *)
@@ -215,11 +224,12 @@ Proof.
            raw_info_nodup reset_info_nodup k agents Es).
 Qed.
 
-Theorem vec_reset_refines_lemma k agents Es (st : vstate) seed i E s :
+Theorem vec_reset_refines_lemma k agents Es (st : vstate) sd opt i E s :
   NoDup agents -> Forall (fun E => kind E = k) Es -> wf_vstate (length Es) k agents st ->
+  seed_ok (length Es) sd ->
   nth_error Es i = Some E -> nth_error (vstates st) i = Some s ->
-  let r := vec_reset k agents Es st seed in
-  let w := worker_reset E agents s (seed_of seed i) in
+  let r := vec_reset k agents Es st sd opt in
+  let w := worker_reset E agents s (rarg_at (length Es) sd opt i) in
   wf_vstate (length Es) k agents (fst r) /\
   nth_error (vstates (fst r)) i = Some (fst w) /\
   forall a, In a agents ->
@@ -227,21 +237,36 @@ Theorem vec_reset_refines_lemma k agents Es (st : vstate) seed i E s :
     (forall key, info_at (snd (snd r)) a key i = info_in (snd (snd w)) a key) /\
     mask_at (snd (snd r)) a i = has_agent (snd (snd w)) a.
 Proof.
-  exact (g_vec_reset_refines_env env_reset kind reset_obs_ok reset_info_nodup k agents Es st seed i E s).
+  exact (g_vec_reset_refines_env env_reset kind reset_obs_ok reset_info_nodup k agents Es st sd opt i E s).
 Qed.
 
-Theorem vec_session_refines_lemma k agents Es seed actss i E :
+Theorem vec_session_refines_lemma k agents Es sd opt actss i E :
   NoDup agents -> Forall (fun E => kind E = k) Es -> Forall (actions_ok (length Es)) actss ->
-  nth_error Es i = Some E ->
-  let st0 := fst (vec_reset k agents Es (vec_init k agents Es) seed) in
-  let s0 := fst (env_reset E init_state (seed_of seed i)) in
+  seed_ok (length Es) sd -> nth_error Es i = Some E ->
+  let st0 := fst (vec_reset k agents Es (vec_init k agents Es) sd opt) in
+  let s0 := fst (env_reset E init_state (rarg_at (length Es) sd opt i)) in
   let acts_i := map (fun actions => nth i (transpose_actions agents actions 0%Z) []) actss in
   nth_error (vstates (fst (vec_run k agents Es st0 actss))) i = Some (fst (single_run single_step E s0 acts_i)) /\
   Forall2 (fun out ref => agrees_at k agents i out (process_transition k agents ref))
           (snd (vec_run k agents Es st0 actss)) (snd (single_run single_step E s0 acts_i)).
 Proof.
   exact (g_vec_session_refines raw_step env_reset kind live init_state all_done_keys_spec raw_obs_ok reset_obs_ok
-           raw_info_nodup reset_info_nodup k agents Es seed actss i E).
+           raw_info_nodup reset_info_nodup k agents Es sd opt actss i E).
+Qed.
+
+(* reset(seed, options) plumbing made visible: after vec_env.reset(seed=z, options={"opt": o}) the
+   observation of sub-environment i carries z + i (feature 1 = base + episode) and its info carries o *)
+Theorem reset_plumbing_lemma E s seed opt a :
+  a < nag E ->
+  let r := env_reset E s (seed, opt) in
+  base (fst r) = match seed with Some z => z | None => base s end /\
+  info_in (snd (snd r)) a 2 = opt.
+Proof.
+  intros Ha. unfold env_reset. cbn [fst snd base live]. split; [reflexivity|].
+  unfold info_in.
+  match goal with |- context[map (fun b => (b, reset_info ?st b ?o)) ?L] =>
+    rewrite (lookup_map_In (fun b => reset_info st b o) L a) by (apply in_seq; lia) end.
+  destruct opt; reflexivity.
 Qed.
 
 Lemma vec_init_wf k agents Es : wf_vstate (length Es) k agents (vec_init k agents Es).
